@@ -407,6 +407,7 @@ func (p *Prog) Atom(cond ssa.Value) BoolAtom {
 		}
 	case *ssa.Call:
 		if sc := x.Call.StaticCallee(); sc != nil {
+			sc = p.unwrap(sc)
 			n := sc.Name()
 			switch n {
 			case "LT", "LTE", "GT", "GTE", "Equal", "IsZero", "IsPositive", "IsNegative", "IsNil",
